@@ -249,15 +249,17 @@ def get_model(
         assoc = getattr(lang_classes_factory.ns, assoc_name)()
         setattr(assoc, left_field, [left_asset])
         setattr(assoc, right_field, [right_asset])
-        if not (instance_model.association_exists_between_assets(
+        # Every link is returned twice by the query, once starting from each
+        # of its two assets. Compare in the orientation of the association
+        # itself: a reflexive association can link the same two assets in
+        # both directions, which are two different links.
+        first_field, second_field = \
+            instance_model.get_association_field_names(assoc)
+        if not instance_model.association_exists_between_assets(
             assoc_name,
-            left_asset,
-            right_asset
-        ) or instance_model.association_exists_between_assets(
-            assoc_name,
-            right_asset,
-            left_asset
-        )):
+            getattr(assoc, first_field)[0],
+            getattr(assoc, second_field)[0]
+        ):
             instance_model.add_association(assoc)
 
     return instance_model
